@@ -183,7 +183,7 @@ pub fn decode_case(data: &[u8], fam: Family) -> Case {
     let repolls = b(u) % 4;
     let merge = subj.is_merge();
     let mut ops = Vec::new();
-    while !u.is_empty() && ops.len() < 96 {
+    while !u.is_empty() && ops.len() < 64 {
         let o = b(u);
         let op = match o % 32 {
             0 | 1 | 2 => Op::Push(plan(u, merge, false)),
@@ -192,7 +192,7 @@ pub fn decode_case(data: &[u8], fam: Family) -> Case {
             6 => Op::TryPushFront(plan(u, merge, false)),
             7 => {
                 let k = b(u);
-                Op::PushMany(if k & 128 != 0 { k & 127 } else { k % 12 }, plan(u, merge, false))
+                Op::PushMany(if k & 128 != 0 { (k & 127) % 70 } else { k % 12 }, plan(u, merge, false))
             }
             8..=11 => Op::Poll(b(u) % 3),
             12 => Op::PollMany(b(u) % 3, b(u) % 16),
